@@ -330,6 +330,13 @@ def c04(tier, seed):
     add_cov(res, v4, m4["runs"], [], "faults")
     res.coverage["fault_points"] = m4["points"]
     res.coverage["fault_status_histogram"] = m4["status_hist"]
+    # runs to the numerical limit (all tolerances zero, 500 iterations) on nonsymmetric-cone mixtures
+    tr5, cs5, mt5 = [os.path.join(wd, "longrun" + x) for x in (".ndjson", ".cases.ndjson", ".meta.json")]
+    run_vh(["longrun", "--seed", seed, "--count", 80 if tier == "quick" else 1500, "--out", tr5, "--cases", cs5, "--meta", mt5])
+    m5 = json.load(open(mt5))
+    v5 = validate_family(res, "C04", tr5, cs5, "longrun")
+    add_cov(res, v5, m5["runs"], [], "longrun")
+    res.coverage["longrun"] = m5
     # the timers behind solve_time / time_limit: Timers.tla behaviours replayed on the real Timers with real sleeps
     from props import structs
     rt = structs.spec_to_impl(res, "C04", "Timers.tla", ["MC_Timers_5.cfg" if tier == "quick" else "MC_Timers.cfg"], "timers-replay", wd, "timers",
